@@ -24,7 +24,8 @@ from vlib import ToolError, log
 PROP = "C15"
 TOKENS = [("word", "Some words."), ("empty", ""), ("close", "a */ b"), ("open", "a /* b"), ("glob", "see **/*.rs"),
           ("exporttype", "export type Zed = 1;"), ("dquote", 'say "hi"'), ("backslash", "back\\slash\\"), ("unicode", "naïve 日本語 ß"),
-          ("long", "x" * 300), ("slashes", "// not a comment"), ("star", " * starred")]
+          ("long", "x" * 300), ("slashes", "// not a comment"), ("star", " * starred"),
+          ("paren_open", "see (the other"), ("paren_close", "one) and } or ]"), ("brace_open", "a { b [ c")]
 SYNTAX = ["line", "attr", "block", "mixed"]
 TAIL = "tail words"
 POSITIONS = {
@@ -35,6 +36,11 @@ POSITIONS = {
     "container_enum_serde": ('$ #[derive(Serialize)] #[serde(tag = "t")] pub enum @ { A, B { x: i32 } }', "container"),
     "field_serde": ('#[derive(Serialize)] pub struct @ { $ #[serde(rename = "g")] pub f: i32, pub h: String }', "g"),
     "variant_field_serde": ('#[derive(Serialize)] #[serde(rename_all_fields = "camelCase")] pub enum @ { A { $ #[serde(default)] x_y: i32 }, B }', "xY"),
+    # the documented item is presented inside another type (flattened / inlined): its docs travel with it as text
+    "flattened_enum_field": ("pub enum E_@ { A { $ x: i32 }, B } #[derive(TS)] pub struct @ { #[ts(flatten)] pub f: E_@ }", "x"),
+    "flattened_two_enums_field": ('pub enum E_@ { A { $ x: i32 }, B } #[derive(TS)] #[ts(tag = "k")] pub enum F_@ { C { y: i32 }, D } '
+                                  "#[derive(TS)] pub struct M_@ { #[ts(flatten)] pub e: E_@, #[ts(flatten)] pub f: F_@ } #[derive(TS)] pub struct @ { #[ts(flatten)] pub m: M_@ }", "x"),
+    "inlined_struct_field": ("pub struct I_@ { $ pub x: i32 } #[derive(TS)] pub struct @ { #[ts(inline)] pub f: I_@, pub g: String }", "x"),
     "named_field": ("pub struct @ { $ pub f: i32, pub g: String }", "f"),
     "named_field_renamed": ('#[ts(rename_all = "kebab-case")] pub struct @ { $ pub foo_bar: i32, pub g: String }', "foo-bar"),
     "tuple_field": ("pub struct @($ pub i32, pub String);", None),
@@ -67,7 +73,8 @@ def build(tier):
     if q:
         # all single lines; two-line texts only with an empty line or a comment terminator in them
         cases = [c for c in cases if len(c["lines"]) == 1 or any(TOKENS[t - 1][0] in ("empty", "close", "exporttype") for t in c["lines"])]
-        cases = [c for k, c in enumerate(cases) if len(c["lines"]) == 1 or k % 3 == 0]
+        core = ("container", "named_field", "variant_field", "flattened_enum_field", "container_serde")
+        cases = [c for k, c in enumerate(cases) if len(c["lines"]) == 1 or (k % 3 == 0 and c["pos"] in core)]
     units, n = [], 0
     for pos, (tmpl, key) in POSITIONS.items():
         units.append(corpus.Unit("Base_%s" % pos, "#[derive(TS)] " + tmpl.replace("$", "").replace("@", "Base_%s" % pos), [], serde=False, meta={"base": pos}))
@@ -194,7 +201,7 @@ def run(tier):
            "samples": [{"case": m[0], "text": m[2][:300]} for m in meta[:: max(1, len(meta) // 6)][:6]],
            "cases": len(recs), "merged_file_cases": sum(1 for m in meta if m[0]["merged"]),
            "model_says_not_contained": model_uncontained, "by_position": dict(Counter(m[0]["position"] for m in meta)), "exhaustive": tier != "quick",
-           "rule": "doc texts of <= %d lines over 12 line tokens x 4 syntaxes (/// lines, #[doc] attributes, one block, block + line) x 14 positions (quick: all single lines, two-line texts containing an empty line / `*/` / `export type`); + 80 merged-file cases (documented type between two neighbours in a shared file)" % (2 if tier == "quick" else 3)}
+           "rule": "doc texts of <= %d lines over 15 line tokens x 4 syntaxes (/// lines, #[doc] attributes, one block, block + line) x 17 positions (quick: all single lines, two-line texts containing an empty line / `*/` / `export type`); + 80 merged-file cases (documented type between two neighbours in a shared file)" % (2 if tier == "quick" else 3)}
     vlib.write_evidence(PROP, tier, "model_checking", cov,
                         ["doc comments are given to the derive as #[doc = ..] attributes, which is what rustc turns /// and /** */ into",
                          "containment of the text is checked modulo backslashes (an escaped `*/` still counts as the text)"],
